@@ -242,6 +242,10 @@ func (encryptor *HashQuery) replaceValuesWithHMACs(ctx context.Context, values [
 }
 
 func (encryptor *HashQuery) calculateHmac(ctx context.Context, data []byte) ([]byte, error) {
+	// empty values are stored as they are (without encryption and blind index), so they are searched as they are
+	if len(data) == 0 {
+		return data, nil
+	}
 	accessContext := base.AccessContextFromContext(ctx)
 	if !encryptor.decryptor.MatchDataSignature(data) {
 		key, err := encryptor.keystore.GetHMACSecretKey(accessContext.GetClientID())
